@@ -29,18 +29,27 @@ def run(ctx):
     g = cfg_of(md.node)
     # ---- R1 exact < partials < '*' ---------------------------------------------------
     app = []
-    from sa.util import returned_name
+    from sa.util import returned_name, canon_atom, names_in
     M = returned_name(md, "matches")            # the match list, by what it is: the function's result
-    # the partial-descriptor list: the one that is extended into the result
-    PL = next((norm(x.args[0]) for x in own_nodes(md.node) if isinstance(x, ast.Call) and isinstance(x.func, ast.Attribute) and x.func.attr == "extend"
-               and dotted(x.func.value) == M and x.args and isinstance(x.args[0], ast.Name)), "partials")
+    ev_param = md.params[1] if len(md.params) > 1 else "event_type"
+    # contributions to the result, in whatever form: the initial value, append(), extend() / +=
+    ext_args = []
     for x in own_nodes(md.node):
-        if isinstance(x, ast.Call) and isinstance(x.func, ast.Attribute) and x.func.attr in ("append", "extend") and dotted(x.func.value) == M:
-            kind = "exact" if x.func.attr == "append" and norm(x.args[0]) == md.params[1] else \
-                ("wild" if const_str(x.args[0]) == "*" else ("partials" if x.func.attr == "extend" else "other"))
+        if isinstance(x, (ast.Assign, ast.AnnAssign)) and getattr(x, "value", None) is not None and norm(x.targets[0] if isinstance(x, ast.Assign) else x.target) == M:
+            if ev_param in names_in(x.value) and not isinstance(x.value, ast.Call):
+                app.append(("exact", x))            # matches = [event_type] if event_type in on_map else []
+        elif isinstance(x, ast.Call) and isinstance(x.func, ast.Attribute) and x.func.attr in ("append", "extend") and dotted(x.func.value) == M and x.args:
+            if x.func.attr == "append":
+                kind = "exact" if norm(x.args[0]) == ev_param else ("wild" if const_str(x.args[0]) == "*" else "other")
+            else:
+                kind = "partials"
+                ext_args.append(x.args[0])
             app.append((kind, x))
+        elif isinstance(x, ast.AugAssign) and isinstance(x.op, ast.Add) and norm(x.target) == M:
+            app.append(("partials", x))
+            ext_args.append(x.value)
     kinds = [k for k, _ in app]
-    c.expect("R1", "appends to the match list", len(app), 3, md, "the descriptor matcher no longer contributes all three kinds (exact key, partial descriptors, wildcard)")
+    c.expect("R1", "contributions to the match list", len(app), 3, md, "the descriptor matcher no longer contributes all three kinds (exact key, partial descriptors, wildcard)")
     order_ok = True
     why = "exact key, then partial descriptors, then '*'"
     rank = {"exact": 0, "partials": 1, "wild": 2}
@@ -53,27 +62,47 @@ def run(ctx):
                             order_ok = False
                             why = f"'{k2}' can be appended before '{k1}'"
     c.ob("R1", order_ok and set(rank) <= set(kinds), md, "specificity-order", why if order_ok else f"descriptor specificity order broken: {why}", md.node)
-    sorts = [x for x in own_nodes(md.node) if isinstance(x, ast.Call) and isinstance(x.func, ast.Attribute) and x.func.attr == "sort" and dotted(x.func.value) == PL]
-    ok = False
-    for s in sorts:
-        key = next((k.value for k in s.keywords if k.arg == "key"), None)
-        rev = next((k.value for k in s.keywords if k.arg == "reverse"), None)
-        desc = (key is not None and norm(key) == "len" and isinstance(rev, ast.Constant) and rev.value is True) or \
+
+    def _len_desc(call):
+        key = next((k.value for k in call.keywords if k.arg == "key"), None)
+        rev = next((k.value for k in call.keywords if k.arg == "reverse"), None)
+        return (key is not None and norm(key) == "len" and isinstance(rev, ast.Constant) and rev.value is True) or \
                (isinstance(key, ast.Lambda) and len(key.args.args) == 1 and norm(key.body).replace(" ", "") == f"-len({key.args.args[0].arg})")
+    # the partial-descriptor list: what is extended into the result (a name, or sorted(<name / comprehension>, ...))
+    PL = None
+    ok = False
+    for ea in ext_args:
+        core = ea
+        if isinstance(core, ast.Call) and isinstance(core.func, ast.Name) and core.func.id == "sorted" and core.args:
+            ok = ok or _len_desc(core)
+            core = core.args[0]
+        if isinstance(core, ast.Name):
+            PL = core.id
+    PL = PL or "partials"
+    sorts = [x for x in own_nodes(md.node) if isinstance(x, ast.Call) and isinstance(x.func, ast.Attribute) and x.func.attr == "sort" and dotted(x.func.value) == PL]
+    for s_ in sorts:
         ext = [x for k, x in app if k == "partials"]
-        before = all(g.can_reach(a, b, follow_exc=False) for a in cfg_node_of(md, s) for e in ext for b in cfg_node_of(md, e))
-        ok = ok or (desc and before)
+        before = all(g.can_reach(a_, b_, follow_exc=False) for a_ in cfg_node_of(md, s_) for e in ext for b_ in cfg_node_of(md, e))
+        ok = ok or (_len_desc(s_) and before)
     c.ob("R1", ok, md, "partials-longest-first", "partial descriptors are sorted by prefix length, longest first, before being appended" if ok else
          "partial descriptors are not sorted longest-prefix-first before they are appended: 'a.*' could shadow 'a.b.*'", md.node)
     # only keys of the form 'p.*' are partial descriptors (an exact key must never be read as the prefix 'p' + two characters)
-    from sa.util import canon_atom
-    pstores = [x for x in own_nodes(md.node) if isinstance(x, ast.Call) and isinstance(x.func, ast.Attribute) and x.func.attr == "append" and dotted(x.func.value) == PL]
-    for x in pstores:
-        at = [canon_atom(a, pol) for a, pol in guards_at(md, x) if not isinstance(a, ast.BoolOp)]
+    memberships = []          # (node, atoms that hold for a key that becomes a partial descriptor)
+    for x in own_nodes(md.node):
+        if isinstance(x, ast.Call) and isinstance(x.func, ast.Attribute) and x.func.attr == "append" and dotted(x.func.value) == PL:
+            memberships.append((x, [canon_atom(a, pol) for a, pol in guards_at(md, x) if not isinstance(a, ast.BoolOp)]))
+        elif isinstance(x, (ast.Assign, ast.AnnAssign)) and getattr(x, "value", None) is not None and norm(x.targets[0] if isinstance(x, ast.Assign) else x.target) == PL \
+                and isinstance(x.value, (ast.ListComp, ast.GeneratorExp)):
+            at = []
+            for cnd in x.value.generators[0].ifs:
+                at.extend(canon_atom(a, pol) for a, pol in split_atoms(cnd, True) if not isinstance(a, ast.BoolOp))
+            memberships.append((x, at))
+    for x, at in memberships:
         okp = any(t[0] == "truthy" and t[1].endswith(".endswith('.*')") and t[3] is True for t in at)
         c.ob("R1", okp, md, "partial-keys-end-with-dot-star", "a key is treated as a partial descriptor only if it ends with '.*'" if okp else
-             f"'{norm(x)}' is not under a positive 'key.endswith(\".*\")' test (guards: {at}): an exact key 'foo' is read as the partial descriptor 'f.*' and "
+             f"'{norm(x)[:60]}' is not under a positive 'key.endswith(\".*\")' test (guards: {at}): an exact key 'foo' is read as the partial descriptor 'f.*' and "
              f"handles the events 'f' and 'f.<anything>'", x)
+    c.expect("R1", "sources of partial descriptors", len(memberships), 1, md, "no key is ever recognised as a partial descriptor ('a.*')")
     # the partial predicate: 'p.*' matches p itself and anything starting with 'p.'
     preds = [x for x in own_nodes(md.node) if isinstance(x, ast.BoolOp) and isinstance(x.op, ast.Or) and "startswith" in norm(x) and "==" in norm(x)]
     ok = False
@@ -164,22 +193,32 @@ def run(ctx):
             reach = go.reachable(t_succ, follow_exc=False)
             appends = [n.id for n in go.nodes if n.id in reach and n.ast is not None and n.kind == "stmt" and "eligible.append" in norm(n.ast)]
             rets = [r for r in own_nodes(owner.node) if isinstance(r, ast.Return)]
-            def truthy(r):
-                return r.value is not None and not (isinstance(r.value, ast.Constant) and not r.value.value)
-            fall_through_none = True     # falling off the end returns None: false
-            signal = [r for r in rets if truthy(r)]
-            sig_ok = bool(signal) and all(isinstance(r.value, ast.Constant) and r.value.value is True and
-                                          any(norm(a) == norm(ft.ast) and pol for a, pol in guards_at(owner, r)) for r in signal)
-            reach_ret = any(go.nodes[i].ast in signal for i in reach)
+            # the value that says "forbidden" is the constant returned on that path (True in one spelling, False in another); every
+            # other return - and falling off the end, which returns None - must say the opposite
+            on_path = [r for r in rets if any(go.nodes[i].ast is r for i in reach)]
+            sig_vals = {r.value.value for r in on_path if isinstance(r.value, ast.Constant) and isinstance(r.value.value, bool)}
+            signal_value = next(iter(sig_vals)) if len(sig_vals) == 1 and len(on_path) == len([r for r in on_path if isinstance(r.value, ast.Constant)]) else None
+            others = [r for r in rets if r not in on_path]
+            others_ok = all(isinstance(r.value, ast.Constant) and isinstance(r.value.value, bool) and r.value.value is (not signal_value) for r in others) \
+                if signal_value is not None else False
+            falls_off = not isinstance(owner.node.body[-1], (ast.Return, ast.Raise))
+            if falls_off and signal_value is False:
+                others_ok = False        # None would read as "forbidden"
+            sig_ok = signal_value is not None and bool(on_path) and others_ok and \
+                all(any(norm(a) == norm(ft.ast) and pol for a, pol in guards_at(owner, r)) for r in on_path)
             sites = [y for y in own_nodes(ce.node) if isinstance(y, ast.Call) and isinstance(y.func, ast.Name) and y.func.id == owner.name]
             site_ok = bool(sites)
             for y in sites:
-                tests = [n for n in g2.nodes if n.kind == "test" and n.ast is not None and any(a is y and pol for a, pol in split_atoms(n.ast, True))]
+                from sa.util import expand_names
+                tests = [(n, [pol for a, pol in split_atoms(expand_names(ce, n.ast), True) if a is y or norm(a) == norm(y)])
+                         for n in g2.nodes if n.kind == "test" and n.ast is not None]
+                tests = [(n, pols) for n, pols in tests if pols]
                 if not tests:
                     site_ok = False      # the result is dropped, or used as something else than a condition
-                for tn in tests:
-                    site_ok = site_ok and after_in_ce([d for d, lab in g2.succ[tn.id] if lab == "T"])
-            ok = not appends and sig_ok and reach_ret and site_ok and fall_through_none
+                for tn, pols in tests:
+                    # the T branch of the test is taken when the call's value has polarity pols[0]: that must be the "forbidden" value
+                    site_ok = site_ok and pols[0] is signal_value and after_in_ce([d for d, lab in g2.succ[tn.id] if lab == "T"])
+            ok = not appends and sig_ok and site_ok
         c.ob("R3", ok, owner, "forbidden-stops-ancestor-walk", "a null transition consumes the event: nothing else is collected and no ancestor is consulted" if ok else
              "after a null (forbidden) transition the walk still reaches an ancestor or collects further candidates", ft.ast)
     nt = p.cls("StateNode").methods["_normalize_transitions"]
